@@ -337,3 +337,73 @@ def cname_of(irstruct):
     # clang appends .N to colliding names inside one module; strip it
     n = re.sub(r"\.\d+$", "", n)
     return n
+
+
+def indirect_slot(f, call):
+    """(structname, idx) when the callee operand of `call` is a load from a vtable slot."""
+    c = call["callee"]
+    if c[0] != "i":
+        return None
+    ld = f.insts.get(c[1])
+    while ld and ld["op"] in CASTS:
+        o = ld["ops"][0]
+        ld = f.insts.get(o[1]) if o[0] == "i" else None
+    if not ld or ld["op"] != "load":
+        return None
+    p = ld["ops"][0]
+    gi = f.insts.get(p[1]) if p[0] == "i" else None
+    # slot 0 may be addressed without a GEP: bitcast of the table pointer
+    hops = 0
+    while gi and gi["op"] in CASTS and hops < 4:
+        hops += 1
+        src = gi["ops"][0]
+        st, d = strip_struct(_optype(f, src))
+        if st and d == 1:
+            return (st, 0)
+        gi = f.insts.get(src[1]) if src[0] == "i" else None
+    if not gi or gi["op"] != "getelementptr":
+        return None
+    steps = [s for s in gi["gep"]["steps"] if s["k"] == "field"]
+    if not steps:
+        return None
+    s = steps[-1]
+    return (s["struct"], s["idx"])
+
+
+def _optype(f, op):
+    if op[0] == "i":
+        return f.insts[op[1]]["type"]
+    if op[0] == "a":
+        return f.params[op[1]]["type"]
+    return ""
+
+
+def indirect_targets(prog, f, call):
+    """Functions an indirect call may reach: the slot of every constant table of the vtable type;
+    when the slot cannot be recovered (optimised IR), every table entry of the same function type."""
+    slot = indirect_slot(f, call)
+    out = []
+    if slot:
+        for (u, n, gname) in prog.slot_targets(slot[0], slot[1]):
+            g = prog.resolve(u, n)
+            if g is not None and not g.decl:
+                out.append(g)
+        return out
+    want = call.get("fnty")
+    for st in prog.vtable_types():
+        for unit, g in prog.vtable_globals(st):
+            init = g.get("init")
+            if g["zeroinit"] or not init or init[0] != "cv":
+                continue
+            for el in init[1]:
+                while el and el[0] == "ce":
+                    el = el[2][0]
+                if el and el[0] == "f":
+                    fn = prog.resolve(unit, el[1])
+                    if fn is not None and not fn.decl and _fnty(fn) == want and fn not in out:
+                        out.append(fn)
+    return out
+
+
+def _fnty(fn):
+    return "%s (%s)" % (fn.ret, ", ".join(p["type"] for p in fn.params))
